@@ -3,7 +3,8 @@
    Print Assumptions.  Model: Model/Pause.v (reader recvCheckV2+nextBuffer, gate checkStopAndPause
    +sendDataV2, one direction of a transfer).  All statements are for protocol >= 3 (cP3 cf = true):
    older protocols have no pause handling. *)
-From Trzsz Require Import Base.Bytes Gen.Consts Gen.Skel_pause Model.Pause Proofs.Pause Proofs.PauseComp.
+From Trzsz Require Import Base.Bytes Gen.Consts Gen.Skel_pause Gen.Skel_pause2 Model.Pause Model.PauseDown Model.PauseProbe
+  Proofs.Pause Proofs.PauseComp Proofs.PauseSim Proofs.PauseHang Proofs.PauseDown Proofs.PauseDownSim Proofs.PauseFinal Proofs.PauseFinalSim Proofs.PauseProbe.
 From Coq Require Import ZArith.
 
 (* the source still has the control structure the model transcribes (regenerated on every run) *)
@@ -126,16 +127,41 @@ Theorem C18_reader_has_timer : forall (L : Type) (cls : L -> lclass) cf, cP3 cf 
 Proof. exact reader_has_timer. Qed.
 Print Assumptions C18_reader_has_timer.
 
-(* the full no-hang statement for the reader: un-paused, it returns within one sleep plus three timeouts
-   (the running timer, a resume's replacement timer, one retried read), whatever happened before.
-   PARTIAL: proved are C18_reader_has_timer (every blocked read has a running timer <= Timeout),
-   C18_timer_in_pause_no_error and C18_gate_resumes; the tick-counting bound below is stated only. *)
+(* the full no-hang statement for the reader: un-paused, it returns within one sleep plus three timeouts,
+   whatever happened before (any number of pauses, resumes, replaced timers, keep-alives).
+   PROVED (Proofs/PauseHang.v), with a tighter bound: max 1 SL + 2 T.  The three contributions are the
+   rest of the sleep in the pausing loop, the read's own timer and the replacement timer of a resume
+   (which run concurrently: together at most T, not 2 T), and ONE retried read: a retry happens only when
+   a pause began after the read took its generation snapshot, the retry's snapshot is current, and no
+   pause begins any more. *)
 Definition C18_long_pause_no_hang_full : Prop :=
   forall (L : Type) (cls : L -> lclass) cf, cP3 cf = true -> (0 < cT cf)%nat ->
   forall s, reachable L cls cf s -> ph s <> PIdle -> pausing (core s) = false ->
   exists k, (k <= S (cSL cf) + 3 * cT cf)%nat /\
     exists o, In (Some o) (snd (rrun L cls cf s (repeat ETick k))).
 
+Theorem C18_long_pause_no_hang_tight : forall (L : Type) (cls : L -> lclass) cf, cP3 cf = true -> (0 < cT cf)%nat ->
+  forall s, reachable L cls cf s -> ph s <> PIdle -> pausing (core s) = false ->
+  exists k, (k <= Nat.max 1 (cSL cf) + 2 * cT cf)%nat /\
+    exists o, In (Some o) (snd (rrun L cls cf s (repeat ETick k))).
+Proof. exact long_pause_no_hang. Qed.
+Print Assumptions C18_long_pause_no_hang_tight.
+
+Theorem C18_long_pause_no_hang : C18_long_pause_no_hang_full.
+Proof. exact long_pause_no_hang_loose. Qed.
+Print Assumptions C18_long_pause_no_hang.
+
+(* the bound is attained up to the sleep: a read that was blocked when a pause began and whose timer
+   expires right after the resume's replacement is retried once; here T = 3, the verdict comes at the
+   6th tick after the resume = 2 T *)
+Example C18_no_hang_two_timeouts :
+  let cf := mkCfg 3 1 1 true in
+  exists s, rrun nat (fun _ => CGood) cf (rinit nat) [ECall; EPause; ETick; ETick; EResume] = (s, [None; None; None; None; None]) /\
+    pausing (core s) = false /\ ph s = PRead 0 /\
+    snd (rrun nat (fun _ => CGood) cf s (repeat ETick 6)) = [None; None; None; None; None; Some (OTimeout true)].
+Proof. vm_compute. eexists. repeat split. Qed.
+
+(* kept from the first round: every blocked read has a running timer *)
 Theorem C18_long_pause_no_hang_partial : forall (L : Type) (cls : L -> lclass) cf, cP3 cf = true ->
   forall es s os snap, rrun L cls cf (rinit L) es = (s, os) -> ph s = PRead snap ->
   has_timer cf (tmo (core s)) /\ stopped (core s) = false.
@@ -149,8 +175,9 @@ Print Assumptions C18_long_pause_no_hang_partial.
    sleep after the previous resume): no side reports an error (no timeout), the frames handed to the
    peer are exactly 0,1,2,... in order (the sequence delivered without any pause), and whenever no
    goroutine can move and no episode is open, all n frames are delivered and acknowledged.
-   PARTIAL: proved for the machine [astep] in which the two readers are replaced by what
-   C18_keepalive_ignored / C18_reader_no_false_timeout say about them (Model/Pause.v, section (c')). *)
+   This is the statement for the machine [astep] in which the two readers are replaced by what
+   C18_keepalive_ignored / C18_reader_no_false_timeout say about them (Model/Pause.v, section (c'));
+   C18_short_pause_completes below is the same for the composition of the reader machines themselves. *)
 Theorem C18_short_pause_completes_partial : forall T' SL GL n W P,
   (1 <= W)%nat -> (1 <= SL)%nat -> (1 <= GL)%nat -> (P + Nat.max SL GL < S T')%nat ->
   forall xs a, arun (mkCfg (S T') SL GL true) n W P (ainit n) xs = Some a ->
@@ -159,14 +186,43 @@ Theorem C18_short_pause_completes_partial : forall T' SL GL n W P,
 Proof. exact short_pause_completes_abs. Qed.
 Print Assumptions C18_short_pause_completes_partial.
 
-(* the full statement: the same for [cstep], the composition that runs the reader machine [rstep] itself
-   on both sides.  Missing: the simulation lemma  crun xs = Some s -> arun xs = Some (abs_of s)  (it is
-   checked by differential execution of the two extracted machines, group "pausecomp") *)
+(* THE SIMULATION that carries the theorem over to [cstep], the composition that runs the reader machine
+   [rstep] itself on both sides: every enabled concrete move from a state satisfying the concrete
+   invariant (our reader is not stopped and has an empty buffer while blocked; the peer's reader never
+   paused, has no replacement timer, is never in the pausing loop; no error so far) is matched by the
+   SAME move of the abstract machine from the abstraction of the state, and unless the abstract machine
+   reports an error the successors are related again. *)
+Theorem C18_simulation : forall T' SL GL n W P s x s',
+  CInv s -> cstep (mkCfg (S T') SL GL true) n W P s x = Some s' ->
+  exists a', astep (mkCfg (S T') SL GL true) n W P (abs_of s) x = Some a' /\
+             (xBad a' = false -> a' = abs_of s' /\ CInv s').
+Proof. exact sim_step. Qed.
+Print Assumptions C18_simulation.
+
+(* the full statement: the same for [cstep].  The side condition "a new pause begins at least one sleep
+   after the previous resume" is built into [cstep] (XPause is not enabled in EpResumed) and IS needed for
+   a bound per pause: a goroutine asleep in a pausing loop looks at the flag only when it wakes up, so
+   two pauses separated by a gap that falls between two wake-ups are ONE pause for it (see
+   C18_gap_shorter_than_sleep_is_invisible below), and only the total length counts. *)
 Definition C18_short_pause_completes_full : Prop := forall T' SL GL n W P,
   (1 <= W)%nat -> (1 <= SL)%nat -> (1 <= GL)%nat -> (P + Nat.max SL GL < S T')%nat ->
   forall xs s, crun (mkCfg (S T') SL GL true) n W P (cinit n) xs = Some s ->
   cErrA s = false /\ cErrR s = false /\ cDeliv s = seq 0 (length (cDeliv s)) /\ (length (cDeliv s) <= n)%nat /\
   (quiescent n W s = true -> cEp s = EpNone -> cDeliv s = seq 0 n /\ cAcked s = n).
+
+Theorem C18_short_pause_completes : C18_short_pause_completes_full.
+Proof. intros T' SL GL n W P HW HSL HGL HP. exact (short_pause_completes_conc T' SL GL n W P HW HSL HGL HP). Qed.
+Print Assumptions C18_short_pause_completes.
+
+(* why pauses must be a sleep apart: a reader in the pausing loop with a 3-tick sleep; resume, one tick,
+   pause again, two ticks -- repeated: it never leaves the loop, although no single pause lasted more
+   than 2 ticks *)
+Example C18_gap_shorter_than_sleep_is_invisible :
+  let cf := mkCfg 9 3 3 true in
+  let round := [EResume; ETick; EPause; ETick; ETick] in
+  exists s, rrun nat (fun _ => CGood) cf (rinit nat) ([EPause; ECall] ++ round ++ round ++ round ++ round ++ round ++ round) = (s, repeat None 32) /\
+    ph s = PGate 1 3.
+Proof. vm_compute. eexists. split; reflexivity. Qed.
 
 (* the real constants: 100 ms ticks, default Timeout 20 s, window kAckChanBufferSize: every pause of up
    to 19.8 s *)
@@ -182,6 +238,177 @@ Proof.
   exists [XPause; XSCall; XRCall; XTick; XTick; XTick]. eexists. split; [vm_compute; reflexivity|].
   split; [reflexivity|]. cbn. intros H. apply (proj1 (Nat.lt_nge _ _) H). repeat constructor.
 Qed.
+
+(* ====================== the DOWNLOAD direction, data phase ======================
+   The peer's wire sender PS with its ack window W, OUR data reader D (recvCheckV2("DATA"): pausing loop, read
+   timer), OUR acker K (checkStopAndPause("SUCC") in front of every "#SUCC:len/step": keep-alives "#SUCC:=" every
+   gate sleep, but ONLY while it holds an acknowledgement), the peer's ack reader PA on its timer; latency 0.
+   When a pause begins with everything acknowledged, K waits on its channel, D sleeps in its loop, and the peer
+   hears nothing until the resume: the bound on the pause length is what keeps PA (and D) from timing out.
+   For EVERY schedule in which an episode of pausing lasts at most P ticks, P + one sleep < T: no error on either
+   side, the frames handed to our pipeline are exactly 0,1,2,... in order, and whenever nothing can move and no
+   episode is open all n frames are delivered and the peer has all n acknowledgements. *)
+Definition C18_down_short_pause_completes_full : Prop := forall T' SL GL n W P,
+  (1 <= W)%nat -> (1 <= SL)%nat -> (1 <= GL)%nat -> (P + Nat.max SL GL < S T')%nat ->
+  forall xs s, ydrun (mkCfg (S T') SL GL true) n W P (ydinit n) xs = Some s ->
+  dErrD s = false /\ dErrPA s = false /\ dDeliv s = seq 0 (length (dDeliv s)) /\ (length (dDeliv s) <= n)%nat /\
+  (d_quiescent n W s = true -> dEp s = EpNone -> dDeliv s = seq 0 n /\ dPacked s = n).
+
+Theorem C18_down_short_pause_completes : C18_down_short_pause_completes_full.
+Proof. intros T' SL GL n W P HW HSL HGL HP. exact (down_short_pause_completes_conc T' SL GL n W P HW HSL HGL HP). Qed.
+Print Assumptions C18_down_short_pause_completes.
+
+(* the same for the abstract machine, and the simulation between the two *)
+Theorem C18_down_short_pause_completes_abs : forall T' SL GL n W P,
+  (1 <= W)%nat -> (1 <= SL)%nat -> (1 <= GL)%nat -> (P + Nat.max SL GL < S T')%nat ->
+  forall xs b, yrun (mkCfg (S T') SL GL true) n W P (yinit n) xs = Some b ->
+  yBad b = false /\ yDeliv b = seq 0 (length (yDeliv b)) /\ (length (yDeliv b) <= n)%nat /\
+  (y_quiescent n W b = true -> yEp b = EpNone -> yDeliv b = seq 0 n /\ yPacked b = n).
+Proof. exact down_short_pause_completes_abs. Qed.
+Print Assumptions C18_down_short_pause_completes_abs.
+
+Theorem C18_down_simulation : forall T' SL GL n W P s x s',
+  DInv s -> ydstep (mkCfg (S T') SL GL true) n W P s x = Some s' ->
+  exists b', ystep (mkCfg (S T') SL GL true) n W P (yabs s) x = Some b' /\
+             (yBad b' = false -> b' = yabs s' /\ DInv s').
+Proof. exact down_sim_step. Qed.
+Print Assumptions C18_down_simulation.
+
+(* the bound is tight: a single pause with P + sleep = T makes the peer's ack reader time out (3 frames, window 1,
+   T = 4 ticks, sleeps of 1 tick, a pause of 3 ticks that begins when everything has been acknowledged; the
+   reader machines themselves, not the abstraction) *)
+Example C18_down_long_pause_times_out : exists xs s,
+  ydrun (mkCfg 4 1 1 true) 3 1 3 (ydinit 3) xs = Some s /\ dErrPA s = true /\ (3 + Nat.max 1 1 = 4)%nat.
+Proof.
+  exists [YPause; YPSCall; YPSWrite; YPSPush; YPSCall; YPSWrite; YPATake; YPSPush; YPSCall; YPSWrite; YDCall;
+          YTick; YTick; YTick; YResume; YTick].
+  eexists. split; [vm_compute; reflexivity|]. split; reflexivity.
+Qed.
+
+(* ====================== after the last DATA frame ======================
+   UPLOAD: the peer's acker polls ("#SUCC:step" every FP ticks until its disk has everything, then the final one and
+   its pipeline is done); our reader loops in pipelineRecvFinalAck with the pausing loop in front of every read; when
+   it returns the final ack our main goroutine writes the MD5 line (no gate); the peer's main goroutine waits for it
+   with a PLAIN timed read: nothing we write while pausing re-arms that timer.  For every schedule with episodes of
+   at most P ticks, P + one sleep < T (a new pause beginning MORE than one sleep after the previous resume, so that
+   our reader gets through the progress acks that piled up) and FP < T: no timeout on either side, and whenever
+   nothing can move, no episode is open and the peer's disk has everything, we have seen the final ack and the peer
+   has the MD5 line.  (Stated for the machine in which our reader is replaced by its abstraction; C18_up_final_short_pause below is
+   the same for the reader machine itself.) *)
+Theorem C18_up_final_short_pause_abs : forall T' SL GL FP P,
+  (1 <= SL)%nat -> (1 <= FP)%nat -> (FP < S T')%nat -> (P + SL < S T')%nat ->
+  forall xs u, urun (mkCfg (S T') SL GL true) FP P (uinit (mkCfg (S T') SL GL true) FP) xs = Some u ->
+  uBad u = false /\
+  (u_quiescent u = true -> uEp u = EpNone -> uSaved u = true -> uFin u = true /\ uPM u = PMDone).
+Proof. exact up_final_short_pause. Qed.
+Print Assumptions C18_up_final_short_pause_abs.
+
+(* the same with our reader as the reader machine [rstep] itself ([udstep]), carried over by a simulation as in
+   the data phases *)
+Definition C18_up_final_short_pause_full : Prop := forall T' SL GL FP P,
+  (1 <= SL)%nat -> (1 <= FP)%nat -> (FP < S T')%nat -> (P + SL < S T')%nat ->
+  forall xs s, udrun (mkCfg (S T') SL GL true) FP P (udinit (mkCfg (S T') SL GL true) FP) xs = Some s ->
+  udErr s = false /\ udBadPM s = false /\
+  (ud_quiescent s = true -> udEp s = EpNone -> udSaved s = true -> udFin s = true /\ udPM s = PMDone).
+
+Theorem C18_up_final_short_pause : C18_up_final_short_pause_full.
+Proof. intros T' SL GL FP P H1 H2 H3 H4. exact (up_final_short_pause_conc T' SL GL FP P H1 H2 H3 H4). Qed.
+Print Assumptions C18_up_final_short_pause.
+
+Theorem C18_up_final_simulation : forall T' SL GL FP P s x s',
+  UDInv s -> udstep (mkCfg (S T') SL GL true) FP P s x = Some s' ->
+  exists u', ustep (mkCfg (S T') SL GL true) FP P (uabs s) x = Some u' /\ (uBad u' = false -> u' = uabs s' /\ UDInv s').
+Proof. exact up_final_sim_step. Qed.
+Print Assumptions C18_up_final_simulation.
+
+(* tight: a pause with P + sleep = T that begins before the peer's disk catches up makes the peer give up waiting
+   for the MD5 line (T = 5, sleep 1, poll 2, pause 4) *)
+Example C18_up_final_long_pause_times_out : exists xs s,
+  udrun (mkCfg 5 1 1 true) 2 4 (udinit (mkCfg 5 1 1 true) 2) xs = Some s /\ udBadPM s = true /\ (4 + 1 = 5)%nat.
+Proof.
+  exists [UPause; UFACall; USaved; UTick; UTick; UTick; UTick; UResume; UTick].
+  eexists. split; [vm_compute; reflexivity|]. split; reflexivity.
+Qed.
+
+(* DOWNLOAD: our acker in its final loop (gate, "#SUCC:step", poll wait or ackImmediately) always has something to
+   say: a keep-alive every gate sleep while pausing, a progress ack every poll otherwise.  For EVERY schedule -- pauses
+   of any length and number, any distance apart -- the peer's pipelineRecvFinalAck never times out, provided only
+   that the gate sleep and the poll interval are shorter than the timeout; and when our acker is done and nothing
+   can move the peer has seen the final ack. *)
+Theorem C18_down_final_never_times_out_abs : forall T' SL GL FP,
+  (1 <= GL)%nat -> (1 <= FP)%nat -> (GL < S T')%nat -> (FP < S T')%nat ->
+  forall xs v, vrun (mkCfg (S T') SL GL true) FP vinit xs = Some v ->
+  vBad v = false /\ (vK v = K2Done -> v_quiescent v = true -> vPfin v = true).
+Proof. exact down_final_never_times_out. Qed.
+Print Assumptions C18_down_final_never_times_out_abs.
+
+(* the same with the peer's reader as the reader machine and the gate of Model/Pause.v ([vdstep]) *)
+Definition C18_down_final_never_times_out_full : Prop := forall T' SL GL FP,
+  (1 <= GL)%nat -> (1 <= FP)%nat -> (GL < S T')%nat -> (FP < S T')%nat ->
+  forall xs s, vdrun (mkCfg (S T') SL GL true) FP vdinit xs = Some s ->
+  vdErr s = false /\ (vdK s = K2Done -> vd_quiescent s = true -> vdPfin s = true).
+
+Theorem C18_down_final_never_times_out : C18_down_final_never_times_out_full.
+Proof. intros T' SL GL FP H1 H2 H3 H4. exact (down_final_never_times_out_conc T' SL GL FP H1 H2 H3 H4). Qed.
+Print Assumptions C18_down_final_never_times_out.
+
+Theorem C18_down_final_simulation : forall T' SL GL FP s x s',
+  VDInv s -> vdstep (mkCfg (S T') SL GL true) FP s x = Some s' ->
+  exists v', vstep (mkCfg (S T') SL GL true) FP (vabs s) x = Some v' /\ (vBad v' = false -> v' = vabs s' /\ VDInv s').
+Proof. exact down_final_sim_step. Qed.
+Print Assumptions C18_down_final_simulation.
+
+(* both conditions are needed: a gate sleep, or a poll interval, as long as the timeout *)
+Example C18_down_final_conditions_needed :
+  (exists xs v, vdrun (mkCfg 4 1 4 true) 2 vdinit xs = Some v /\ vdErr v = true) /\
+  (exists xs v, vdrun (mkCfg 4 1 1 true) 4 vdinit xs = Some v /\ vdErr v = true).
+Proof.
+  split.
+  - exists [VPause; VKCall; VPFCall; VTick; VTick; VTick; VTick]. eexists. split; [vm_compute; reflexivity|reflexivity].
+  - exists [VKCall; VKWrite; VPFCall; VPFCall; VTick; VTick; VTick; VTick]. eexists. split; [vm_compute; reflexivity|reflexivity].
+Qed.
+
+(* the real constants, 100 ms ticks, default Timeout 20 s: sleeps 1 tick, poll 2 ticks, T = 200: every pause of up
+   to 19.8 s in either direction's data phase and in the upload's final phase; any pause in the download's final loop *)
+Example C18_default_timeout_instances :
+  cfg_of 100 20 3 = mkCfg 200 1 1 true /\ (N.to_nat (pause_final_ack_poll_ms / 100) = 2)%nat /\
+  (198 + Nat.max 1 1 <? 200)%nat = true /\ (198 + 1 <? 200)%nat = true /\ (2 <? 200)%nat = true /\ (1 <? 200)%nat = true.
+Proof. vm_compute. repeat split; reflexivity. Qed.
+
+(* ====================== the buffer-size probing phase ======================
+   While the sender probes the buffer size its encoder waits after every buffer for bufInitDone(), which only the
+   ack reader calls.  An acknowledgement that recvCheckV2 marks `pause` is kept out of the chunk-time statistics --
+   but in the probing phase it must still release the encoder, or a pause there hangs the sender for ever (no timer
+   on that path).  In the probing phase EVERY acknowledgement releases the encoder. *)
+Theorem C18_probe_ack_releases : forall st pause grow, pra_init st = true -> snd (pra_step st pause grow) = true.
+Proof. exact probe_ack_releases. Qed.
+Print Assumptions C18_probe_ack_releases.
+
+Theorem C18_probe_run_releases : forall acks st st' rs, pra_init st = true -> pra_run st acks = (st', rs) ->
+  Forall (fun pg => snd pg = true) acks -> rs = repeat true (length acks) /\ pra_init st' = true.
+Proof. exact probe_run_releases. Qed.
+Print Assumptions C18_probe_run_releases.
+
+Theorem C18_probe_ends_with_release : forall st pause, pra_init st = true ->
+  pra_step st pause false = (mkPra (if pause then Z.of_N pause_ignore_chunk_count else pra_ignore st) false, true).
+Proof. exact probe_ends_with_release. Qed.
+Print Assumptions C18_probe_ends_with_release.
+
+(* the goroutines around the pause machinery still have the shape the models transcribe *)
+Theorem C18_skel2_matches :
+  skel_pipelineRecvAck = SkelPin2.expected_pipelineRecvAck /\
+  skel_pipelineRecvFinalAck = SkelPin2.expected_pipelineRecvFinalAck /\
+  skel_pipelineRecvData = SkelPin2.expected_pipelineRecvData /\
+  skel_pipelineSendAck = SkelPin2.expected_pipelineSendAck /\
+  skel_sendDataWriterWrite = SkelPin2.expected_sendDataWriterWrite /\
+  skel_sendFileMD5 = SkelPin2.expected_sendFileMD5 /\
+  skel_recvFileMD5 = SkelPin2.expected_recvFileMD5.
+Proof. exact SkelPin2.skel2_matches. Qed.
+Print Assumptions C18_skel2_matches.
+
+Theorem C18_consts2 : pause_ignore_chunk_count = (pause_ack_window + 2)%N /\ pause_recv_ackchan_cap = 100%N.
+Proof. exact pause2_consts_ok. Qed.
+Print Assumptions C18_consts2.
 
 (* non-vacuity: a reader that is reachable, blocked in a read, pausing; a keep-alive; a paused sender
    already past its check *)
